@@ -76,3 +76,16 @@ func VerifJobRestart(org int64) error {
 	VerifJobQuiesce()
 	return nil
 }
+
+// VerifLegacyRow rewrites columns of an all_alerts row directly (a row as an older version of the product may have
+// left it in the database: eval_interval 0, alert_type 0, …); no code under test is involved.
+func VerifLegacyRow(id string, cols map[string]interface{}) error {
+	p, err := verifDB()
+	if err != nil {
+		return err
+	}
+	return p.VerifDB().Model(&alertutils.AlertDetails{}).Where("alert_id = ?", id).Updates(cols).Error
+}
+
+// VerifJobRemove removes whatever jobs carry the tag (end-of-case cleanup).
+func VerifJobRemove(id string) { _ = s.RemoveByTag(id) }
